@@ -59,10 +59,35 @@ func (v *c14) OnState(x *Ctx, s *St) {
 		x.Violate("dealt-count", "hole cards + board + burned cards are not exactly the consumed top of the deck", fmt.Sprintf("%d cards consumed", pos), fmt.Sprintf("%d cards visible: %v", len(seq), seq))
 		return
 	}
-	for i := range seq {
-		if seq[i] != deck[i] {
-			x.Violate("dealt-order", fmt.Sprintf("card %d dealt is not card %d of the deck", i, i), strings.Join(deck[:pos], " "), strings.Join(seq, " "))
-			return
+	// "together exactly the consumed top of the deck": as a collection. The order in which the hole cards
+	// go round the table is the dealer's business (seat by seat or one card at a time), the property does
+	// not fix it; what it does fix is that a card is burned BEFORE each street is dealt.
+	if !sameMultiset(seq, deck[:pos]) {
+		x.Violate("dealt-order", "hole cards, board and burned cards together are not the consumed top of the deck", strings.Join(deck[:pos], " "), strings.Join(seq, " "))
+		return
+	}
+	at := map[string]int{}
+	for i, c := range deck[:pos] {
+		at[c] = i
+	}
+	streets := [][2]int{{0, 3}, {3, 4}, {4, 5}} // board index ranges of flop, turn, river
+	for k, r := range streets {
+		if k >= len(gs.Status.Burned) {
+			break
+		}
+		for bi := r[0]; bi < r[1] && bi < len(gs.Status.Board); bi++ {
+			if at[gs.Status.Burned[k]] > at[gs.Status.Board[bi]] {
+				x.Violate("burn-after-street", fmt.Sprintf("burned card %d left the deck after board card %d", k, bi), "burned before the street is dealt", fmt.Sprintf("burned %s at %d, board %s at %d", gs.Status.Burned[k], at[gs.Status.Burned[k]], gs.Status.Board[bi], at[gs.Status.Board[bi]]))
+				return
+			}
+		}
+	}
+	for _, p := range gs.Players {
+		for _, c := range p.HoleCards {
+			if len(gs.Status.Burned) > 0 && at[c] > at[gs.Status.Burned[0]] {
+				x.Violate("hole-card-after-burn", "a hole card left the deck after the first burned card", "hole cards first", fmt.Sprintf("%s at %d", c, at[c]))
+				return
+			}
 		}
 	}
 	seen := map[string]bool{}
@@ -199,7 +224,7 @@ func ReplayShuffle(v *explore.Violation) (bool, string) {
 
 // RunC14 explores the play grid with the dealing oracle, then enumerates the shuffle seam.
 func RunC14(rep *explore.Report, tier string) {
-	rep.Set("rule", "every reachable state of the play grid (decks of distinct tokens in factory, reversed, rotated and layout orders): visible cards == consumed deck prefix in dealing order, street sizes, prefix monotonicity on every transition; ShuffleCards through the rand seam: all n! answer sequences for n<=7 (also through Start()), all sequences with <=2 (quick, 52 cards: <=1) non-default answers for the 36- and 52-card decks; distinct_nontrivial = distinct shuffle outcomes + states with at least one card dealt")
+	rep.Set("rule", "every reachable state of the play grid (decks of distinct tokens in factory, reversed, rotated and layout orders): visible cards == consumed deck prefix (as a collection; a burn precedes its street, hole cards precede the first burn), street sizes, prefix monotonicity on every transition; ShuffleCards through the rand seam: all n! answer sequences for n<=7 (also through Start()), all sequences with <=2 (quick, 52 cards: <=1) non-default answers for the 36- and 52-card decks; distinct_nontrivial = distinct shuffle outcomes + states with at least one card dealt")
 	if RunScenes(rep, tier, Visitors["C14"], GridOpts{Property: "C14"}) {
 		return
 	}
